@@ -15,8 +15,10 @@ import (
 	"net/http"
 	"net/http/httptest"
 	"net/url"
+	"runtime"
 	"sort"
 	"strings"
+	"sync"
 	"time"
 
 	"github.com/labstack/echo/v4"
@@ -64,9 +66,23 @@ type c12Case struct {
 	// TokenLength Len2) after the first, 4 = CSRF, RequestID(), second CSRF
 	Extra int `json:"extra,omitempty"`
 	Len2  int `json:"len2,omitempty"`
+	// Inst2: how the second CSRF instance is configured: 0 = cookie "_csrf2", ContextKey "csrf2", lookup
+	// "header:X-Csrf2,query:csrf2"; 1 = cookie "_csrf_admin", lookup "form:admin_csrf", ContextKey left at
+	// its default (shared with a first instance that also uses the default); 2 = as 0 but with the default ContextKey
+	Inst2 int `json:"inst2,omitempty"`
+	// PreSet: a middleware registered before everything else puts "preset-ctx-value" under the first
+	// instance's ContextKey
+	PreSet bool `json:"preset,omitempty"`
+	// Conc > 0: concurrency case (oracle only): Conc goroutines send ConcN requests each through the one
+	// stack at the same time, every goroutine with its own CSRF cookie (or none: real crypto/rand)
+	Conc  int `json:"conc,omitempty"`
+	ConcN int `json:"conc_n,omitempty"`
 	// Route: names of the path parameters of the route ("/p/:a/:b..."); empty = route "/"
 	Route []string `json:"route,omitempty"`
-	// Mount: where the middlewares are registered: 0 = e.Use, 1 = on the route itself, 2 = on a group "/grp"
+	// Mount: where the middlewares are registered: 0 = e.Use, 1 = on the route itself, 2 = on a group "/grp",
+	// 3 = the first one with e.Use, the others on the group "/grp", 4 = applied ONCE by hand: the route's handler is
+	// mws[0](mws[1](...(handler))) (echo itself applies registered middleware anew for every request, so only
+	// here state created in the middleware's `func(next)` part is shared by all requests)
 	Mount int `json:"mount,omitempty"`
 	// RealRandom: crypto/rand is not replaced (oracle only, no model comparison)
 	RealRandom bool     `json:"real_random,omitempty"`
@@ -106,7 +122,14 @@ func (c *c12Case) instances() []*c12Inst {
 	out := []*c12Inst{first}
 	if c.Extra == 3 || c.Extra == 4 {
 		second := &c12Inst{cookie: "_csrf2", key: "csrf2", lookup: "header:X-Csrf2,query:csrf2", length: c.Len2}
-		second.raw = middleware.CSRFConfig{TokenLength: uint8(c.Len2), TokenLookup: second.lookup, CookieName: second.cookie, ContextKey: second.key}
+		rawKey := "csrf2"
+		switch c.Inst2 {
+		case 1:
+			second.cookie, second.lookup, second.key, rawKey = "_csrf_admin", "form:admin_csrf", "csrf", ""
+		case 2:
+			second.key, rawKey = "csrf", ""
+		}
+		second.raw = middleware.CSRFConfig{TokenLength: uint8(c.Len2), TokenLookup: second.lookup, CookieName: second.cookie, ContextKey: rawKey}
 		out = append(out, second)
 	}
 	for _, in := range out {
@@ -138,7 +161,7 @@ func (c *c12Case) stack() []int {
 func (c *c12Case) valid() bool {
 	if c.TokenLength < 0 || c.TokenLength > 255 || c.ErrorHandler < 0 || c.ErrorHandler > 2 || c.Extra < 0 || c.Extra > 4 ||
 		c.Len2 < 0 || c.Len2 > 255 || c.CookieMaxAge < 0 || c.CookieMaxAge > 1<<30 || c.CookieSameSite < 0 || c.CookieSameSite > 4 ||
-		c.Ctor < 0 || c.Ctor > 1 || len(c.Route) > 40 || c.Mount < 0 || c.Mount > 2 {
+		c.Ctor < 0 || c.Ctor > 1 || len(c.Route) > 40 || c.Mount < 0 || c.Mount > 4 || c.Inst2 < 0 || c.Inst2 > 2 || c.Conc < 0 || c.Conc > 64 || c.ConcN < 0 || c.ConcN > 5000 {
 		return false
 	}
 	if c.Ctor == 1 && (c.TokenLength != 0 || c.TokenLookup != "" || c.CookieName != "" || c.ContextKey != "" || c.ErrorHandler != 0 ||
@@ -217,7 +240,7 @@ func c12Build(c *c12Case, rq *c12Req) c12Built {
 			params = append(params, [2]string{n, v})
 		}
 	}
-	if c.Mount == 2 {
+	if c.Mount == 2 || c.Mount == 3 {
 		target = "/grp" + target
 	}
 	if len(q) > 0 {
@@ -278,13 +301,14 @@ func (s *c12Source) Read(p []byte) (int, error) {
 }
 
 type c12Env struct {
-	c     *c12Case
-	e     *echo.Echo
-	mws   []echo.MiddlewareFunc
-	grp   *echo.Group
-	insts []*c12Inst
-	ran   bool
-	ctx   []*string
+	c       *c12Case
+	e       *echo.Echo
+	mws     []echo.MiddlewareFunc
+	grp     *echo.Group
+	wrapped echo.HandlerFunc
+	insts   []*c12Inst
+	ran     bool
+	ctx     []*string
 }
 
 // c12Serve runs one request with the given random stream, guarded by a deadline.
@@ -453,7 +477,7 @@ func c12MwOps(c *c12Case, insts []*c12Inst) []string {
 			r := insts[k].raw
 			ops = append(ops, "0", wInt(int(r.TokenLength)), wStr(r.TokenLookup), wStr(r.CookieName), wInt(insts[k].eh),
 				wStr(r.CookiePath), wStr(r.CookieDomain), wInt(r.CookieMaxAge), wBool(r.CookieSecure), wBool(r.CookieHTTPOnly),
-				wInt(int(r.CookieSameSite)), wBool(insts[k].skipper))
+				wInt(int(r.CookieSameSite)), wBool(insts[k].skipper), wStr(r.ContextKey))
 		}
 	}
 	return ops
@@ -468,7 +492,14 @@ func c12Run(ci any) Result {
 	}
 	insts := c.instances()
 	stack := c.stack()
-	ops := append([]string{wStr(c.TokenLookup)}, c12MwOps(c, insts)...)
+	if c.Conc > 0 {
+		return c12RunConc(c)
+	}
+	ops := []string{wStr(c.TokenLookup), "0"}
+	if c.PreSet {
+		ops = []string{wStr(c.TokenLookup), "1", wStr(insts[0].key), wStr(c12Preset)}
+	}
+	ops = append(ops, c12MwOps(c, insts)...)
 	ops = append(ops, wInt(len(c.Reqs)))
 	tagset := map[string]bool{}
 	oracle := ""
@@ -498,6 +529,15 @@ func c12Run(ci any) Result {
 			}
 		}()
 		env.e = echo.New()
+		if c.PreSet {
+			key := insts[0].key
+			env.e.Use(func(next echo.HandlerFunc) echo.HandlerFunc {
+				return func(ctx echo.Context) error {
+					ctx.Set(key, c12Preset)
+					return next(ctx)
+				}
+			})
+		}
 		for _, k := range stack {
 			if k < 0 {
 				env.mws = append(env.mws, middleware.RequestID())
@@ -533,6 +573,9 @@ func c12Run(ci any) Result {
 			env.e.Use(env.mws...)
 		case 2:
 			env.grp = env.e.Group("/grp", env.mws...)
+		case 3:
+			env.e.Use(env.mws[0])
+			env.grp = env.e.Group("/grp", env.mws[1:]...)
 		}
 		return false
 	}()
@@ -568,6 +611,14 @@ func c12Run(ci any) Result {
 				env.e.Add(m, pattern, h)
 			case 1:
 				env.e.Add(m, pattern, h, env.mws...)
+			case 4:
+				if env.wrapped == nil {
+					env.wrapped = h
+					for i := len(env.mws) - 1; i >= 0; i-- {
+						env.wrapped = env.mws[i](env.wrapped)
+					}
+				}
+				env.e.Add(m, pattern, env.wrapped)
 			default:
 				env.grp.Add(m, pattern, h)
 			}
@@ -700,10 +751,6 @@ func c12Run(ci any) Result {
 					line = append(line, "r", wStr(o.rid))
 					continue
 				}
-				if o.setCookie[k] == nil && o.ctxTok[k] == nil {
-					line = append(line, "k")
-					continue
-				}
 				sc, ct := "<none>", "<none>"
 				attrs := []string{"-", "-", "-", "-", "-", "-"}
 				if ck := o.setCookie[k]; ck != nil {
@@ -755,9 +802,19 @@ func c12Run(ci any) Result {
 				}
 				continue
 			}
+			// the ContextKey is this instance's own at handler time unless a LATER instance of the stack
+			// publishes under the same key (the innermost instance owns a shared key)
+			ownsKey := true
+			for k2 := k + 1; k2 < len(insts); k2++ {
+				if insts[k2].key == in.key && !o.skipSaid[k2] {
+					ownsKey = false
+					tagset["context-key-shared-by-two-instances"] = true
+				}
+			}
 			if o.skipSaid[k] {
 				tagset["skipped-by-skipper"] = true
-				if o.setCookie[k] != nil || o.ctxTok[k] != nil {
+				foreign := !ownsKey || (c.PreSet && in.key == insts[0].key)
+				if o.setCookie[k] != nil || (o.ctxTok[k] != nil && !foreign) {
 					fail(i, name+"the Skipper skipped the request but a token was published")
 				}
 				continue // the middleware is configured not to act on this request
@@ -784,7 +841,7 @@ func c12Run(ci any) Result {
 			switch sc := o.setCookie[k]; {
 			case sc == nil:
 				fail(i, name+"passed without a Set-Cookie for the CSRF cookie")
-			case o.ctxTok[k] == nil || *o.ctxTok[k] != sc.Value:
+			case ownsKey && (o.ctxTok[k] == nil || *o.ctxTok[k] != sc.Value):
 				got := "nothing"
 				if o.ctxTok[k] != nil {
 					got = fmt.Sprintf("%q", *o.ctxTok[k])
@@ -795,7 +852,7 @@ func c12Run(ci any) Result {
 			case reqCookie[k] == nil && (len(sc.Value) != in.length || !c12Letters(sc.Value)):
 				fail(i, fmt.Sprintf("%sfresh token %q: want %d ASCII letters", name, sc.Value, in.length))
 			}
-			if sc := o.setCookie[k]; sc != nil && o.ctxTok[k] != nil {
+			if sc := o.setCookie[k]; sc != nil && o.ctxTok[k] != nil && ownsKey {
 				retained = append(retained, kept{i, k, o.ctxTok[k], sc.Value})
 				if reqCookie[k] == nil && in.length >= 16 {
 					if j, dup := fresh[sc.Value]; dup && c.RealRandom {
@@ -842,7 +899,10 @@ func c12Run(ci any) Result {
 		tagset["route-with-path-params"] = true
 	}
 	if c.Mount != 0 {
-		tagset[[]string{"", "registered-on-the-route", "registered-on-a-group"}[c.Mount]] = true
+		tagset[[]string{"", "registered-on-the-route", "registered-on-a-group", "first-on-echo-rest-on-a-group", "applied-once-by-hand"}[c.Mount]] = true
+	}
+	if c.PreSet {
+		tagset["context-key-preset-by-earlier-middleware"] = true
 	}
 	for _, rq := range c.Reqs {
 		if rq.Multipart {
@@ -860,6 +920,193 @@ func c12Run(ci any) Result {
 		res.Tags = append(res.Tags, "real-crypto-rand(oracle only)")
 	}
 	return res
+}
+
+const c12Preset = "preset-ctx-value"
+
+// c12RunConc: overlapping requests through ONE stack.  Every goroutine has a CSRF cookie of its own (or
+// none, then its tokens come from the real crypto/rand) and sends safe and unsafe requests that satisfy
+// every instance; whatever the schedule, each response must carry the token of ITS request in Set-Cookie,
+// the handler of that request must have found the same token in its context, and every request must pass.
+// Oracle only (no model comparison); sound on every schedule.
+func c12RunConc(c *c12Case) Result {
+	insts := c.instances()
+	if c.ConcN <= 0 || c.Ctor == 1 && c.Extra >= 3 || len(c.Route) > 0 {
+		return Result{Tags: []string{"invalid-case"}}
+	}
+	var oracle string
+	var mu sync.Mutex
+	fail := func(s string) {
+		mu.Lock()
+		if oracle == "" {
+			oracle = s
+		}
+		mu.Unlock()
+	}
+	func() {
+		defer func() {
+			if r := recover(); r != nil {
+				fail(fmt.Sprint("panic during construction: ", r))
+			}
+		}()
+		e := echo.New()
+		var mws []echo.MiddlewareFunc
+		for _, k := range c.stack() {
+			switch {
+			case k < 0:
+				mws = append(mws, middleware.RequestID())
+			case insts[k].ctor == 1:
+				mws = append(mws, middleware.CSRF())
+			default:
+				mws = append(mws, middleware.CSRFWithConfig(insts[k].raw))
+			}
+		}
+		keys := []string{}
+		for _, in := range insts {
+			keys = append(keys, in.key)
+		}
+		h := func(ctx echo.Context) error {
+			// report what the handler found, twice (before and after yielding the processor)
+			first := make([]string, len(keys))
+			for k, key := range keys {
+				first[k], _ = ctx.Get(key).(string)
+			}
+			runtime.Gosched()
+			for k, key := range keys {
+				if v, _ := ctx.Get(key).(string); v != first[k] {
+					return ctx.String(http.StatusOK, "changed")
+				}
+			}
+			return ctx.String(http.StatusOK, strings.Join(first, "|"))
+		}
+		switch c.Mount {
+		case 1:
+			e.Add("GET", "/", h, mws...)
+			e.Add("POST", "/", h, mws...)
+		case 4:
+			wrapped := echo.HandlerFunc(h)
+			for i := len(mws) - 1; i >= 0; i-- {
+				wrapped = mws[i](wrapped)
+			}
+			e.Add("GET", "/", wrapped)
+			e.Add("POST", "/", wrapped)
+		default:
+			e.Use(mws...)
+			e.Add("GET", "/", h)
+			e.Add("POST", "/", h)
+		}
+		shared := len(insts) > 1 && insts[0].key == insts[1].key
+		var wg sync.WaitGroup
+		start := make(chan struct{})
+		for g := 0; g < c.Conc; g++ {
+			wg.Add(1)
+			go func(g int) {
+				defer wg.Done()
+				defer func() {
+					if r := recover(); r != nil {
+						fail(fmt.Sprint("goroutine ", g, ": panic: ", r))
+					}
+				}()
+				<-start
+				// own cookies; every third goroutine sends none for the first instance (fresh tokens)
+				toks := make([]string, len(insts))
+				for k := range insts {
+					toks[k] = fmt.Sprintf("Tok%dOfGoroutine%04dxxxxxxxxxxxxxxxx", k, g)
+				}
+				noCookie := g%3 == 2
+				for i := 0; i < c.ConcN; i++ {
+					method := "POST"
+					if i%4 == 3 || noCookie {
+						method = "GET"
+					}
+					req := httptest.NewRequest(method, "/", nil)
+					for k, in := range insts {
+						if k == 0 && noCookie {
+							continue
+						}
+						req.AddCookie(&http.Cookie{Name: in.cookie, Value: toks[k]})
+						// the token at the first lookup location of the instance
+						l := c12Locs(in.lookup)
+						if len(l) == 0 {
+							continue
+						}
+						switch l[0].kind {
+						case "header":
+							req.Header.Add(l[0].name, l[0].pfx+toks[k])
+						case "query", "form":
+							q := req.URL.Query()
+							q.Add(l[0].name, toks[k])
+							req.URL.RawQuery = q.Encode()
+						}
+					}
+					rec := httptest.NewRecorder()
+					e.ServeHTTP(rec, req)
+					if rec.Code != http.StatusOK {
+						fail(fmt.Sprintf("goroutine %d request %d (%s, own cookie and own token at the lookup location): status %d while other requests were in flight", g, i, method, rec.Code))
+						return
+					}
+					found := strings.Split(rec.Body.String(), "|")
+					if rec.Body.String() == "changed" || len(found) != len(insts) {
+						fail(fmt.Sprintf("goroutine %d request %d: the context token changed while the handler was running", g, i))
+						return
+					}
+					cks := rec.Result().Cookies()
+					for k, in := range insts {
+						var sc *http.Cookie
+						for _, ck := range cks {
+							if ck.Name == in.cookie {
+								sc = ck
+								break
+							}
+						}
+						want := toks[k]
+						fresh := k == 0 && noCookie
+						switch {
+						case sc == nil:
+							fail(fmt.Sprintf("goroutine %d request %d: passed without a Set-Cookie %q", g, i, in.cookie))
+						case !fresh && sc.Value != want:
+							fail(fmt.Sprintf("goroutine %d request %d: Set-Cookie %s=%q, but the request's own cookie token is %q (another request's token, concurrently in flight)", g, i, in.cookie, sc.Value, want))
+						case fresh && (len(sc.Value) != in.length || !c12Letters(sc.Value)):
+							fail(fmt.Sprintf("goroutine %d request %d: fresh token %q: want %d ASCII letters", g, i, sc.Value, in.length))
+						case (k == len(insts)-1 || !shared) && found[k] != sc.Value:
+							fail(fmt.Sprintf("goroutine %d request %d: Set-Cookie token %q differs from the context token %q of the same request", g, i, sc.Value, found[k]))
+						}
+					}
+				}
+			}(g)
+		}
+		close(start)
+		wg.Wait()
+	}()
+	return Result{Oracle: oracle, Tags: []string{"concurrent-requests-through-one-instance(oracle only)"}, Nontrivial: true}
+}
+
+// c12GenConc: a concurrency case: simple in-scope configuration, any stack
+func c12GenConc(r *rand.Rand, big bool) *c12Case {
+	c := &c12Case{Conc: 8 + r.Intn(9), ConcN: 150 + r.Intn(150)}
+	if big {
+		c.ConcN *= 3
+	}
+	if r.Intn(3) == 0 {
+		c.Ctor = 1
+	} else {
+		c.TokenLookup = []string{"", "header:X-CSRF-Token", "query:csrf", "header:X-Tok:tok-,query:csrf", "form:csrf"}[r.Intn(5)]
+		c.CookieName = []string{"", "_csrf", "XSRF-TOKEN"}[r.Intn(3)]
+		c.TokenLength = []int{0, 8, 32, 64}[r.Intn(4)]
+		if r.Intn(2) == 0 {
+			c.CookiePath, c.CookieSameSite = "/", 1+r.Intn(4)
+		}
+	}
+	switch r.Intn(4) {
+	case 0:
+		c.Extra = 1
+	case 1:
+		if c.Ctor == 0 {
+			c.Extra, c.Inst2, c.Len2 = 3, r.Intn(3), 32
+		}
+	}
+	c.Mount = []int{0, 1, 4, 4}[r.Intn(4)]
+	return c
 }
 
 // the model op of one request
@@ -1183,22 +1430,26 @@ func c12GenReq(r *rand.Rand, c *c12Case) c12Req {
 		rq.Headers = append(rq.Headers, [2]string{[]string{"X-Request-Id", "X-Request-ID", "x-request-id"}[r.Intn(3)], []string{"req-1", "", "abcDEF"}[r.Intn(3)]})
 	}
 	if c.Extra == 3 || c.Extra == 4 {
-		// the second CSRF instance: cookie "_csrf2", token in the X-Csrf2 header or the csrf2 query parameter
+		// the second CSRF instance: its own cookie, its token at one of its own lookup locations
+		in2 := c.instances()[1]
 		tok2 := c12Token(r)
-		x := r.Intn(10)
-		if x < 7 {
-			rq.Cookies = append(rq.Cookies, [2]string{"_csrf2", tok2})
+		switch x := r.Intn(10); {
+		case x < 7:
+			rq.Cookies = append(rq.Cookies, [2]string{in2.cookie, tok2})
+		case x < 8 && hasCookie:
+			// only the FIRST instance is satisfied: the second must still ask for its own cookie
 		}
 		v := tok2
 		if r.Intn(4) == 0 {
 			v = c12NearMiss(r, tok2)
 		}
-		switch r.Intn(5) {
-		case 0:
-		case 1:
-			rq.Query = append(rq.Query, [2]string{"csrf2", v})
-		default:
-			rq.Headers = append(rq.Headers, [2]string{"X-Csrf2", v})
+		locs2 := c12Locs(in2.lookup)
+		if r.Intn(5) != 0 {
+			l2 := locs2[r.Intn(len(locs2))]
+			c12Place(r, c.Route, &rq, l2, v)
+			if l2.kind == "form" && r.Intn(2) == 0 {
+				rq.Method = []string{"POST", "PUT", "PATCH"}[r.Intn(3)]
+			}
 		}
 	}
 	if len(locs) == 0 {
@@ -1371,7 +1622,14 @@ func c12Gen(r *rand.Rand, tier string) []any {
 		if r.Intn(4) == 0 {
 			c.Extra = 1 + r.Intn(4)
 			c.Len2 = []int{0, 1, 8, 32, 33, 64, 204, 205, 255}[r.Intn(9)]
+			if c.Extra >= 3 {
+				c.Inst2 = r.Intn(3)
+				if c.Inst2 != 0 && r.Intn(2) == 0 {
+					c.ContextKey = "" // both instances on the default key
+				}
+			}
 		}
+		c.PreSet = r.Intn(12) == 0
 		if strings.Contains(c.TokenLookup, "param:") || r.Intn(30) == 0 {
 			c.Route = c12Routes[r.Intn(len(c12Routes))]
 			if strings.Contains(c.TokenLookup, "param:t") && !strings.Contains(c.TokenLookup, "param:tok") && r.Intn(2) == 0 {
@@ -1381,8 +1639,8 @@ func c12Gen(r *rand.Rand, tier string) []any {
 				}
 			}
 		}
-		if r.Intn(4) == 0 {
-			c.Mount = 1 + r.Intn(2)
+		if r.Intn(3) == 0 {
+			c.Mount = 1 + r.Intn(4)
 		}
 		k := 1 + r.Intn(3)
 		if r.Intn(8) == 0 {
@@ -1390,6 +1648,9 @@ func c12Gen(r *rand.Rand, tier string) []any {
 		}
 		for j := 0; j < k; j++ {
 			c.Reqs = append(c.Reqs, c12GenReq(r, c))
+		}
+		if len(c.Reqs) > 1 && r.Intn(6) == 0 {
+			c12CarryOver(r, c)
 		}
 		if i%60 == 59 {
 			// the real random source: several cookie-less requests, oracle only
@@ -1404,7 +1665,59 @@ func c12Gen(r *rand.Rand, tier string) []any {
 		}
 		out = append(out, c)
 	}
+	nconc := 12
+	if tier == "thorough" {
+		nconc = 150
+	}
+	for i := 0; i < nconc; i++ {
+		out = append(out, c12GenConc(r, tier == "thorough" && i%3 == 0))
+	}
 	return out
+}
+
+// c12CarryOver: state carried from one request to the next.  Request j+1 gets, as its CSRF cookie, a
+// token that request j presented at a lookup location (or request j's cookie token), and presents nothing
+// itself: whatever an earlier request showed must not validate a later one.
+func c12CarryOver(r *rand.Rand, c *c12Case) {
+	name := c12Eff(c.CookieName, "_csrf")
+	for j := 0; j+1 < len(c.Reqs); j++ {
+		prev := &c.Reqs[j]
+		tok := ""
+		for _, l := range c12Locs(c.TokenLookup) {
+			var pairs [][2]string
+			switch l.kind {
+			case "header":
+				pairs = prev.Headers
+			case "query":
+				pairs = prev.Query
+			case "form":
+				pairs = prev.Form
+			}
+			for _, p := range pairs {
+				if strings.EqualFold(p[0], l.name) && len(p[1]) > len(l.pfx) {
+					tok = p[1][len(l.pfx):]
+				}
+			}
+		}
+		if tok == "" {
+			for _, ck := range prev.Cookies {
+				if ck[0] == name {
+					tok = ck[1]
+				}
+			}
+		}
+		if tok == "" {
+			continue
+		}
+		next := &c.Reqs[j+1]
+		next.GuessFresh = ""
+		next.Method = []string{"POST", "PUT", "DELETE", "PATCH"}[r.Intn(4)]
+		next.Cookies = [][2]string{{name, tok}}
+		next.Headers, next.Query, next.Form, next.PathVals = nil, nil, nil, nil
+		if c.Skipper && r.Intn(2) == 0 {
+			prev.Headers = append(prev.Headers, [2]string{"X-Skip", "1"})
+		}
+	}
 }
 
 // c12LookAlikes puts the token under names that look like the configured one (longer, shorter, other
@@ -1430,7 +1743,7 @@ func c12LookAlikes(c *c12Case, rq *c12Req, loc c12Loc, tok string) {
 	case "cookie":
 		csrfCookie := c12Eff(c.CookieName, "_csrf")
 		for _, n := range names {
-			if n != loc.name && n != csrfCookie && n != "_csrf2" {
+			if n != loc.name && n != csrfCookie && n != "_csrf2" && n != "_csrf_admin" {
 				rq.Cookies = append(rq.Cookies, [2]string{n, tok})
 			}
 		}
@@ -1457,7 +1770,8 @@ func c12LookAlikes(c *c12Case, rq *c12Req, loc c12Loc, tok string) {
 
 // c12Configured: the lookup string (of either CSRF instance) names this location
 func c12Configured(c *c12Case, kind, name string) bool {
-	for _, l := range append(c12Locs(c.TokenLookup), c12Loc{kind: "header", name: "X-Csrf2"}, c12Loc{kind: "query", name: "csrf2"}) {
+	for _, l := range append(c12Locs(c.TokenLookup), c12Loc{kind: "header", name: "X-Csrf2"}, c12Loc{kind: "query", name: "csrf2"},
+		c12Loc{kind: "form", name: "admin_csrf"}, c12Loc{kind: "query", name: "admin_csrf"}) {
 		if l.kind == kind && (l.name == name || kind == "header" && strings.EqualFold(l.name, name)) {
 			return true
 		}
@@ -1586,6 +1900,14 @@ func c12Shrink(ci any) []any {
 		d.Mount = 0
 		out = append(out, &d)
 	}
+	if c.PreSet {
+		d := *c
+		d.PreSet = false
+		out = append(out, &d)
+	}
+	if c.Conc > 0 {
+		return nil // schedule dependent: keep the case as generated
+	}
 	if c.CookiePath != "" || c.CookieDomain != "" || c.CookieMaxAge != 0 || c.CookieSecure || c.CookieHTTPOnly || c.CookieSameSite != 0 {
 		d := *c
 		d.CookiePath, d.CookieDomain, d.CookieMaxAge, d.CookieSecure, d.CookieHTTPOnly, d.CookieSameSite = "", "", 0, false, false, 0
@@ -1611,7 +1933,7 @@ func c12Shrink(ci any) []any {
 func init() {
 	register(&Prop{
 		ID:             "C12",
-		Rule:           "one CSRF middleware per case, built with CSRFWithConfig (TokenLength 0/1..255 with the uint8 boundaries 203..208, 254, 255; 15 header/form/query TokenLookup shapes with 1-3 sources, prefix cut (also as the LAST source), non-canonical header names; 12% param:/cookie: sources on routes with 1-3 or 22 path parameters; 4% ignored/failing sources (no known source: compared with the model only); a third with a custom ErrorHandler that writes its own 418 and returns nil, or returns its own 409 error; a third with cookie options Path/Domain/MaxAge/Secure/HttpOnly/SameSite 0..4; a seventh with a Skipper on the X-Skip header) or with the convenience constructor CSRF() (8%); a quarter of the cases stack other consumers of the random source on the same Echo: RequestID() after or before CSRF, a second CSRF instance (own cookie, context key, lookup, token length), or CSRF + RequestID() + second CSRF; x 1-4 requests: 27 method spellings (standard, lower/mixed case, padded, custom, empty) x cookie present/empty/absent/look-alike name/duplicated x client token exact (alone, among 3/20/21/25 values, beside wrong tokens at other sources), near miss (prefix, suffix, case change, padding, NUL, bit flip, empty), absent, at a non-configured, look-alike-named or unparsed location, or guessed fresh token; random source = seeded byte stream per request delivered one byte per Read (uniform, mostly rejected bytes, boundary bytes 200..215, whole first buffer rejected, too short for the first or for a later consumer), shared by all consumers of the request; every token a handler found in its context is kept (the very string) and compared again with its Set-Cookie after all later requests; every 60th case runs on the real crypto/rand (oracle only: length, letters, Set-Cookie = context, no token issued twice); CreateExtractors is also called directly on the configured string; non-trivial = an unsafe request that passed, or was rejected although cookie and client tokens were present; distinct = distinct model op lines",
+		Rule:           "one CSRF middleware per case, built with CSRFWithConfig (TokenLength 0/1..255 with the uint8 boundaries 203..208, 254, 255; 15 header/form/query TokenLookup shapes with 1-3 sources, prefix cut (also as the LAST source), non-canonical header names; 12% param:/cookie: sources on routes with 1-3 or 22 path parameters; 4% ignored/failing sources (no known source: compared with the model only); a third with a custom ErrorHandler that writes its own 418 and returns nil, or returns its own 409 error; a third with cookie options Path/Domain/MaxAge/Secure/HttpOnly/SameSite 0..4; a seventh with a Skipper on the X-Skip header) or with the convenience constructor CSRF() (8%); a quarter of the cases stack other consumers of the random source on the same Echo: RequestID() after or before CSRF, a second CSRF instance (own cookie, context key, lookup, token length), or CSRF + RequestID() + second CSRF (the second instance with its own ContextKey, or — own cookie _csrf_admin / lookup form:admin_csrf, or cookie _csrf2 — on the DEFAULT ContextKey shared with the first instance: the innermost instance owns the key, every instance still validates and publishes its own cookie); a twelfth of the cases have an earlier middleware that presets a value under the ContextKey; registration with e.Use, on the route, on a group, first on the Echo and the rest on a group, or applied once by hand (mw(handler): the only way state of the func(next) part is shared between requests); x 1-4 requests: 27 method spellings (standard, lower/mixed case, padded, custom, empty) x cookie present/empty/absent/look-alike name/duplicated x client token exact (alone, among 3/20/21/25 values, beside wrong tokens at other sources), near miss (prefix, suffix, case change, padding, NUL, bit flip, empty), absent, at a non-configured, look-alike-named or unparsed location, or guessed fresh token; random source = seeded byte stream per request delivered one byte per Read (uniform, mostly rejected bytes, boundary bytes 200..215, whole first buffer rejected, too short for the first or for a later consumer), shared by all consumers of the request; every token a handler found in its context is kept (the very string) and compared again with its Set-Cookie after all later requests; every 60th case runs on the real crypto/rand (oracle only: length, letters, Set-Cookie = context, no token issued twice); CreateExtractors is also called directly on the configured string; plus 12 (thorough: 150) concurrency cases: 8-16 goroutines x 150-300 (x3) overlapping requests through one stack, each goroutine with its own cookie (every third without: real crypto/rand), every response must carry ITS request's token in Set-Cookie and context, every request must pass (oracle only, sound on every schedule); non-trivial = an unsafe request that passed, or was rejected although cookie and client tokens were present; distinct = distinct model op lines",
 		New:            func() any { return &c12Case{} },
 		Gen:            c12Gen,
 		Run:            c12Run,
